@@ -225,7 +225,7 @@ class RealQueued:
     self.Event, self.signals = Event, signals
     self.case = case
     spec = case["spec"]
-    self.rt = chartgen.build(spec, decorate=decorate, on_action=handler_action, budget=budget)
+    self.rt = chartgen.build(spec, decorate=decorate, on_action=handler_action, budget=budget, methods_ok=True)
     self.rt.ids = [0]
     self.rt.recalled = []
     self.events = {}       # id -> Event object posted from outside
@@ -236,6 +236,8 @@ class RealQueued:
       self.chart = chartgen.bounded(ao_mod.ActiveObject)(name="vfao")
     else:
       self.chart = hsmcheck.make_host("queued" if instrumented else "queued_off")
+    if hasattr(self.rt, "attach"):
+      self.rt.attach(self.chart)       # the states are methods of this chart's own class
     if setup is not None:
       setup(self.chart, self.rt)
     # every step's first offer identifies the dispatched event; a step boundary is a
